@@ -272,6 +272,8 @@ def parse_sequence(ctx, an):
                     "signed": r.get("signed")})
     covered = set()
     for e in an.elems:
+        if e.get("covered"):
+            continue
         if e["root"] != data_root:
             continue
         bc = _base_and_const(e["off"])
